@@ -69,6 +69,11 @@ trait PoolUT: Send + Sync {
     fn counters(&self) -> Option<(u64, u64)>;
     /// does freeing return the block to a LIFO free structure from which a drain must see it again?
     fn recycles_exactly(&self) -> bool;
+    /// anomalies the pool itself reports although the harness only performed legitimate operations
+    /// (e.g. a "double free detected" counter that moved)
+    fn anomalies(&self) -> Vec<String> {
+        vec![]
+    }
 }
 
 struct Secure(Arc<zipora::memory::SecureMemoryPool>);
@@ -87,6 +92,17 @@ impl PoolUT for Secure {
     }
     fn recycles_exactly(&self) -> bool {
         false
+    }
+    fn anomalies(&self) -> Vec<String> {
+        let s = self.0.stats();
+        let mut v = vec![];
+        if s.double_free_detected != 0 {
+            v.push(format!("double_free_detected = {} although every block was released exactly once", s.double_free_detected));
+        }
+        if s.corruption_detected != 0 {
+            v.push(format!("corruption_detected = {}", s.corruption_detected));
+        }
+        v
     }
 }
 
@@ -415,6 +431,9 @@ fn run_once(c: &Case, schedule: Schedule) -> Result<OneRun, String> {
                 // alloc_count also counts refused requests in some pools, hence `<`
                 sh.v("counters", "do_not_add_up", format!("pool reports allocations={ra} deallocations={rf}; harness saw {a} successful allocations and {f} successful frees"));
             }
+        }
+        for a in pool.anomalies() {
+            sh.v("counters", "pool_reported_anomaly", a);
         }
         // drain: every block comes back at most once, none overlaps another
         let freed: Vec<usize> = sh.freed_addrs.lock().unwrap().clone();
